@@ -591,6 +591,139 @@ func idPayload(id int) []byte {
 	return b
 }
 
+// bulkHistory: several writers push large tagged packets (2-60 KB) into one buffer at the same time, so that the ring
+// goes through its growth steps up to and beyond 128 KiB with concurrent writers, while a reader drains slowly or not at
+// all; writers scribble over their slices after every Write. Afterwards the buffer is closed and drained. Conservation
+// instead of linearizability: every packet whose Write succeeded comes out exactly once, intact, in its writer's order;
+// nothing else comes out; Count and Size are exact at the end.
+func bulkHistory(rng *rand.Rand, r *res.Result) string {
+	b := packetio.NewBuffer()
+	nw := 2 + rng.Intn(7)
+	per := 10 + rng.Intn(40)
+	slowReader := rng.Intn(2) == 0
+	if rng.Intn(3) == 0 {
+		b.SetLimitSize(8 * 1024 * 1024)
+	}
+	type rec struct{ w, seq, n int }
+	mk := func(w, seq, n int) []byte {
+		p := fillBytes(n, uint32(w*100003+seq))
+		p[0], p[1], p[2], p[3] = byte(w), byte(seq), byte(seq>>8), 0xB7
+		return p
+	}
+	var mu sync.Mutex
+	accepted := map[[2]int]int{} // (writer, seq) -> length of the packets whose Write returned nil
+	var got []rec
+	var corrupt string
+	check := func(p []byte) {
+		if len(p) < 4 || p[3] != 0xB7 {
+			if corrupt == "" {
+				corrupt = fmt.Sprintf("a read returned %d bytes that do not start like a written packet", len(p))
+			}
+			return
+		}
+		w, seq := int(p[0]), int(p[1])|int(p[2])<<8
+		if !bytes.Equal(p, mk(w, seq, len(p))) && corrupt == "" {
+			corrupt = fmt.Sprintf("packet of writer %d seq %d (%d bytes) came out with different bytes", w, seq, len(p))
+		}
+		got = append(got, rec{w, seq, len(p)})
+	}
+	var wg sync.WaitGroup
+	seeds := make([]int64, nw)
+	for w := range seeds {
+		seeds[w] = rng.Int63()
+	}
+	for w := 0; w < nw; w++ {
+		wg.Add(1)
+		go func(w int) {
+			defer wg.Done()
+			wr := rand.New(rand.NewSource(seeds[w]))
+			for seq := 0; seq < per; seq++ {
+				n := 2000 + wr.Intn(58000)
+				p := mk(w, seq, n)
+				_, err := b.Write(p)
+				for i := range p {
+					p[i] = 0x11
+				}
+				if err == nil {
+					mu.Lock()
+					accepted[[2]int{w, seq}] = n
+					mu.Unlock()
+				}
+			}
+		}(w)
+	}
+	stopR := make(chan struct{})
+	rdone := make(chan struct{})
+	go func() {
+		defer close(rdone)
+		if !slowReader {
+			return
+		}
+		buf := make([]byte, 70000)
+		for {
+			select {
+			case <-stopR:
+				return
+			default:
+			}
+			b.SetReadDeadline(time.Now().Add(2 * time.Millisecond))
+			n, err := b.Read(buf)
+			if err == nil {
+				mu.Lock()
+				check(append([]byte{}, buf[:n]...))
+				mu.Unlock()
+				time.Sleep(50 * time.Microsecond)
+			}
+		}
+	}()
+	wg.Wait()
+	close(stopR)
+	<-rdone
+	b.SetReadDeadline(time.Time{})
+	b.Close()
+	buf := make([]byte, 70000)
+	for k := 0; ; k++ {
+		n, err := b.Read(buf)
+		if err != nil {
+			break
+		}
+		check(append([]byte{}, buf[:n]...))
+		if k > nw*per+10 {
+			return fmt.Sprintf("the closed buffer keeps returning packets: %d reads after Close although only %d packets were ever written", k, nw*per)
+		}
+	}
+	r.Count("bulk_histories", 1)
+	r.Count("bulk_packets_written", int64(len(accepted)))
+	if corrupt != "" {
+		return corrupt
+	}
+	next := make([]int, nw)
+	seen := map[[2]int]bool{}
+	for _, g := range got {
+		k := [2]int{g.w, g.seq}
+		n, ok := accepted[k]
+		switch {
+		case !ok:
+			return fmt.Sprintf("a packet of writer %d seq %d came out although its Write did not succeed", g.w, g.seq)
+		case seen[k]:
+			return fmt.Sprintf("packet of writer %d seq %d came out twice", g.w, g.seq)
+		case n != g.n:
+			return fmt.Sprintf("packet of writer %d seq %d was written with %d bytes and came out with %d", g.w, g.seq, n, g.n)
+		case g.seq < next[g.w]:
+			return fmt.Sprintf("writer %d: packet %d came out after packet %d", g.w, g.seq, next[g.w]-1)
+		}
+		seen[k] = true
+		next[g.w] = g.seq + 1
+	}
+	if len(got) != len(accepted) {
+		return fmt.Sprintf("%d packets were written successfully by %d concurrent writers, %d came out before end-of-file", len(accepted), nw, len(got))
+	}
+	if b.Count() != 0 || b.Size() != 0 {
+		return fmt.Sprintf("after draining Count=%d Size=%d", b.Count(), b.Size())
+	}
+	return ""
+}
+
 var clock int64
 
 func tick() int64 { return atomic.AddInt64(&clock, 1) }
@@ -758,6 +891,32 @@ func main() {
 		n /= *nshard
 		mdl := queueModel()
 		for i := 0; i < n; i++ {
+			if i%40 == 7 {
+				bd := make(chan string, 1)
+				go func() { bd <- bulkHistory(rng, r) }()
+				select {
+				case why := <-bd:
+					r.Eval(1)
+					if why != "" {
+						r.Violate("conc-bulk", "concurrent writers with a large backlog: "+why, map[string]interface{}{"phase": "bulk", "seed": *seed, "shard": *shard, "history": i})
+					}
+				case <-time.After(60 * time.Second):
+					var stuck []string
+					for _, g := range gstate.Snapshot() {
+						if f := g.Innermost("pion/transport/v3/packetio."); f != "" && gstate.Blocked(g.State) {
+							stuck = append(stuck, f+" ["+g.State+"]")
+						}
+					}
+					if len(stuck) > 0 {
+						r.Violate("conc-stuck", fmt.Sprintf("concurrent writers with a large backlog did not finish within 60 s: goroutines are parked inside the buffer: %v", stuck), nil)
+					} else {
+						r.Inconc("bulk history did not finish within 60 s, nothing parked inside packetio")
+					}
+					r.Write(*out)
+					os.Exit(0)
+				}
+				continue
+			}
 			// a history ends when every writer has returned, Close has returned and every reader has seen an error; if it
 			// does not end within 20 s, and the goroutines that are left sit inside packetio (parked), the buffer has
 			// wedged them (for example a lock left held by a panic, or a reader that Close did not release)
